@@ -68,22 +68,20 @@ theorem emit_both (root cur : Nat) (e : Expr F) (s : LState F) (hc : cur < s.jum
 
 mutual
 theorem emit_consts (root cur : Nat) : ∀ (e : Expr F) (s : LState F), cur < s.jumps.size → wfE e = true →
-    (root = cur ∨ enFree e = true) → ConstsOK cur s (emit root cur e s)
-  | .lit v, s, _, hw, _ => by
+    ConstsOK cur s (emit root cur e s)
+  | .lit v, s, _, hw => by
     simp only [emit]
     refine .pushConst s _ _ (fun j hj => ?_)
     subst hj; simp [wfE] at hw
-  | .input, s, _, _, _ => by simp only [emit]; exact .push s _ _
-  | .ident sym, s, _, _, _ => by
+  | .input, s, _, _ => by simp only [emit]; exact .push s _ _
+  | .ident sym, s, _, _ => by
     simp only [emit]; exact .pushConst s _ _ (fun j hj => by cases hj)
-  | .emptyNested, s, _, _, hr => by
+  | .emptyNested, s, _, _ => by
     simp only [emit]
     refine .pushConst s _ _ (fun j hj => ?_)
     simp only [Val.expr.injEq] at hj
-    rcases hr with h | h
-    · rw [← hj, h]
-    · simp [enFree] at h
-  | .nested id, s, _, _, _ => by
+    exact hj.symm
+  | .nested id, s, _, _ => by
     simp only [emit]
     intro k j hk hj
     simp only [LState.pushRoot, LState.pushConst, LState.pushJump, Array.getElem?_push] at hj
@@ -92,155 +90,141 @@ theorem emit_consts (root cur : Nat) : ∀ (e : Expr F) (s : LState F), cur < s.
       refine .inr ⟨(⟨.ref id, s.jumps.size, [(.endExpression, none)], s.jumps.size⟩, 0), ?_, hj, id, rfl⟩
       simp [LState.pushRoot, LState.pushConst, LState.pushJump]
     · rw [Array.getElem?_eq_none hk] at hj; cases hj
-  | .unary op x, s, hc, hw, hr => by
+  | .unary op x, s, hc, hw => by
     simp only [wfE, Bool.and_eq_true] at hw
     simp only [emit]
     obtain ⟨p1, d1⟩ := emit_both root cur x s hc
-    exact (emit_consts root cur x s hc hw.2 (hr.imp id (by simp [enFree]))).thenPush _ _
-  | .binary op l r, s, hc, hw, hr => by
+    exact (emit_consts root cur x s hc hw.2).thenPush _ _
+  | .binary op l r, s, hc, hw => by
     simp only [wfE, Bool.and_eq_true] at hw
-    have he : root = cur ∨ (enFree l = true ∧ enFree r = true) := hr.imp id (by simp [enFree])
     simp only [emit]
     obtain ⟨p1, d1⟩ := emit_both root cur l s hc
     have c1 : cur < (emit root cur l s).jumps.size := by have := p1.jsize; omega
     obtain ⟨p2, d2⟩ := emit_both root cur r _ c1
-    exact ((emit_consts root cur l s hc hw.1.2 (he.imp id (·.1))).trans
-      (emit_consts root cur r _ c1 hw.2 (he.imp id (·.2))) p2.consts d2).thenPush _ _
-  | .pair l r, s, hc, hw, hr => by
+    exact ((emit_consts root cur l s hc hw.1.2).trans
+      (emit_consts root cur r _ c1 hw.2) p2.consts d2).thenPush _ _
+  | .pair l r, s, hc, hw => by
     simp only [wfE, Bool.and_eq_true] at hw
-    have he : root = cur ∨ (enFree l = true ∧ enFree r = true) := hr.imp id (by simp [enFree])
     simp only [emit]
     obtain ⟨p1, d1⟩ := emit_both root cur r s hc
     have c1 : cur < (emit root cur r s).jumps.size := by have := p1.jsize; omega
     obtain ⟨p2, d2⟩ := emit_both root cur l _ c1
-    exact ((emit_consts root cur r s hc hw.2 (he.imp id (·.2))).trans
-      (emit_consts root cur l _ c1 hw.1 (he.imp id (·.1))) p2.consts d2).thenPush _ _
-  | .applyTo x f, s, hc, hw, hr => by
+    exact ((emit_consts root cur r s hc hw.2).trans
+      (emit_consts root cur l _ c1 hw.1) p2.consts d2).thenPush _ _
+  | .applyTo x f, s, hc, hw => by
     simp only [wfE, Bool.and_eq_true] at hw
-    have he : root = cur ∨ (enFree x = true ∧ enFree f = true) := hr.imp id (by simp [enFree])
     simp only [emit]
     obtain ⟨p1, d1⟩ := emit_both root cur f s hc
     have c1 : cur < (emit root cur f s).jumps.size := by have := p1.jsize; omega
     obtain ⟨p2, d2⟩ := emit_both root cur x _ c1
-    exact ((emit_consts root cur f s hc hw.2 (he.imp id (·.2))).trans
-      (emit_consts root cur x _ c1 hw.1 (he.imp id (·.1))) p2.consts d2).thenPush _ _
-  | .list items, s, hc, hw, hr => by
+    exact ((emit_consts root cur f s hc hw.2).trans
+      (emit_consts root cur x _ c1 hw.1) p2.consts d2).thenPush _ _
+  | .list items, s, hc, hw => by
     simp only [wfE] at hw
     simp only [emit]
-    exact (emitList_consts root cur items s hc hw (hr.imp id (by simp [enFree]))).thenPush _ _
-  | .cond onTrue c t, s, hc, hw, hr => by
+    exact (emitList_consts root cur items s hc hw).thenPush _ _
+  | .cond onTrue c t, s, hc, hw => by
     simp only [wfE, Bool.and_eq_true] at hw
-    have he : root = cur ∨ enFree c = true := hr.imp id (by simp only [enFree, Bool.and_eq_true]; exact (·.1))
     simp only [emit]
     obtain ⟨p1, d1⟩ := emit_both root cur c s hc
     have c1 : cur < (emit root cur c s).jumps.size := by have := p1.jsize; omega
-    exact (emit_consts root cur c s hc hw.1.1 he).trans (condTail_consts _) (condTail_pre c1).1.consts
+    exact (emit_consts root cur c s hc hw.1).trans (condTail_consts _) (condTail_pre c1).1.consts
       (emit_dstep root cur (.cond onTrue c t) s |> fun _ => by
         have := (condTail_dep (cur := cur) (onTrue := onTrue) (t := t) (k := (emit root cur c s).dep - 1 + 0)
           (s1 := emit root cur c s))
         exact ((((AppD.pushJump _ _).trans (.push _ _ _)).trans (.push _ _ _)).trans (.pushRoot _ _)).trans (.pushJump _ _))
-  | .and l r, s, hc, hw, hr => by
+  | .and l r, s, hc, hw => by
     simp only [wfE, Bool.and_eq_true] at hw
-    have he : root = cur ∨ enFree l = true := hr.imp id (by simp only [enFree, Bool.and_eq_true]; exact (·.1))
     simp only [emit]
     obtain ⟨p1, d1⟩ := emit_both root cur l s hc
     have c1 : cur < (emit root cur l s).jumps.size := by have := p1.jsize; omega
-    exact (emit_consts root cur l s hc hw.1.1 he).trans (logicalTail_consts _) (logicalTail_pre c1).1.consts
+    exact (emit_consts root cur l s hc hw.1).trans (logicalTail_consts _) (logicalTail_pre c1).1.consts
       (logicalTail_dep (.inl rfl)).1.app
-  | .or l r, s, hc, hw, hr => by
+  | .or l r, s, hc, hw => by
     simp only [wfE, Bool.and_eq_true] at hw
-    have he : root = cur ∨ enFree l = true := hr.imp id (by simp only [enFree, Bool.and_eq_true]; exact (·.1))
     simp only [emit]
     obtain ⟨p1, d1⟩ := emit_both root cur l s hc
     have c1 : cur < (emit root cur l s).jumps.size := by have := p1.jsize; omega
-    exact (emit_consts root cur l s hc hw.1.1 he).trans (logicalTail_consts _) (logicalTail_pre c1).1.consts
+    exact (emit_consts root cur l s hc hw.1).trans (logicalTail_consts _) (logicalTail_pre c1).1.consts
       (logicalTail_dep (.inr rfl)).1.app
-  | .seq a b, s, hc, hw, hr => by
+  | .seq a b, s, hc, hw => by
     simp only [wfE, Bool.and_eq_true] at hw
-    have he : root = cur ∨ (enFree a = true ∧ enFree b = true) := hr.imp id (by simp [enFree])
     simp only [emit]
     obtain ⟨p1, d1⟩ := emit_both root cur a s hc
     have c1 : cur < ((emit root cur a s).push .updateValue none).jumps.size := by have := p1.jsize; simp; omega
     obtain ⟨p2, d2⟩ := emit_both root cur b _ c1
-    exact ((emit_consts root cur a s hc hw.1 (he.imp id (·.1))).thenPush _ _).trans
-      (emit_consts root cur b _ c1 hw.2 (he.imp id (·.2))) p2.consts d2
-  | .sideAfter x b, s, hc, hw, hr => by
+    exact ((emit_consts root cur a s hc hw.1).thenPush _ _).trans
+      (emit_consts root cur b _ c1 hw.2) p2.consts d2
+  | .sideAfter x b, s, hc, hw => by
     simp only [wfE, Bool.and_eq_true] at hw
-    have he : root = cur ∨ (enFree x = true ∧ enFree b = true) := hr.imp id (by simp [enFree])
     simp only [emit]
     obtain ⟨p1, d1⟩ := emit_both root cur x s hc
     have c1 : cur < ((emit root cur x s).push .startSideEffect none).jumps.size := by have := p1.jsize; simp; omega
     obtain ⟨p2, d2⟩ := emit_both root cur b _ c1
-    exact (((emit_consts root cur x s hc hw.1.1 (he.imp id (·.1))).thenPush _ _).trans
-      (emit_consts root cur b _ c1 hw.1.2 (he.imp id (·.2))) p2.consts d2).thenPush _ _
-  | .reapply x, s, hc, hw, hr => by
+    exact (((emit_consts root cur x s hc hw.1.1).thenPush _ _).trans
+      (emit_consts root cur b _ c1 hw.1.2) p2.consts d2).thenPush _ _
+  | .reapply x, s, hc, hw => by
     simp only [wfE] at hw
     simp only [emit]
-    exact ((emit_consts root cur x s hc hw (hr.imp id (by simp [enFree]))).thenPush _ _).thenPush _ _
-  | .prefixApply sym x, s, hc, hw, hr => by
-    simp only [wfE] at hw
-    simp only [emit]
-    have c0 : cur < (s.pushConst .resolve (.sym sym)).jumps.size := by simpa using hc
-    obtain ⟨p1, d1⟩ := emit_both root cur x _ c0
-    exact ((ConstsOK.pushConst s _ _ (fun j hj => by cases hj)).trans
-      (emit_consts root cur x _ c0 hw (hr.imp id (by simp [enFree]))) p1.consts d1).thenPush _ _
-  | .suffixApply x sym, s, hc, hw, hr => by
+    exact ((emit_consts root cur x s hc hw).thenPush _ _).thenPush _ _
+  | .prefixApply sym x, s, hc, hw => by
     simp only [wfE] at hw
     simp only [emit]
     have c0 : cur < (s.pushConst .resolve (.sym sym)).jumps.size := by simpa using hc
     obtain ⟨p1, d1⟩ := emit_both root cur x _ c0
     exact ((ConstsOK.pushConst s _ _ (fun j hj => by cases hj)).trans
-      (emit_consts root cur x _ c0 hw (hr.imp id (by simp [enFree]))) p1.consts d1).thenPush _ _
-  | .infixApply a sym b, s, hc, hw, hr => by
+      (emit_consts root cur x _ c0 hw) p1.consts d1).thenPush _ _
+  | .suffixApply x sym, s, hc, hw => by
+    simp only [wfE] at hw
+    simp only [emit]
+    have c0 : cur < (s.pushConst .resolve (.sym sym)).jumps.size := by simpa using hc
+    obtain ⟨p1, d1⟩ := emit_both root cur x _ c0
+    exact ((ConstsOK.pushConst s _ _ (fun j hj => by cases hj)).trans
+      (emit_consts root cur x _ c0 hw) p1.consts d1).thenPush _ _
+  | .infixApply a sym b, s, hc, hw => by
     simp only [wfE, Bool.and_eq_true] at hw
-    have he : root = cur ∨ (enFree a = true ∧ enFree b = true) := hr.imp id (by simp [enFree])
     simp only [emit]
     have c0 : cur < (s.pushConst .resolve (.sym sym)).jumps.size := by simpa using hc
     obtain ⟨p1, d1⟩ := emit_both root cur a _ c0
     have c1 : cur < (emit root cur a (s.pushConst .resolve (.sym sym))).jumps.size := by have := p1.jsize; omega
     obtain ⟨p2, d2⟩ := emit_both root cur b _ c1
     exact (((((ConstsOK.pushConst s _ _ (fun j hj => by cases hj)).trans
-      (emit_consts root cur a _ c0 hw.1 (he.imp id (·.1))) p1.consts d1).trans
-      (emit_consts root cur b _ c1 hw.2 (he.imp id (·.2))) p2.consts d2).thenPush _ _).thenPush _ _)
-  | .chain arms none, s, _, hw, _ => by simp [wfE_chain] at hw
-  | .chain arms (some e), s, hc, hw, hr => by
+      (emit_consts root cur a _ c0 hw.1) p1.consts d1).trans
+      (emit_consts root cur b _ c1 hw.2) p2.consts d2).thenPush _ _).thenPush _ _)
+  | .chain arms none, s, _, hw => by simp [wfE_chain] at hw
+  | .chain arms (some e), s, hc, hw => by
     simp only [wfE_chain, Bool.and_eq_true] at hw
-    have he : root = cur ∨ (enFreeArms arms = true ∧ enFree e = true) :=
-      hr.imp id (by rw [enFree_chain]; simp only [Bool.and_eq_true]; exact id)
     simp only [emit]
     obtain ⟨p1, _, ok1⟩ := emitArms_pre root cur arms s hc
     have c1 : cur < (emitArms root cur arms s).1.jumps.size := by have := p1.jsize; omega
     obtain ⟨p2, d2⟩ := emit_both root cur e _ c1
-    exact ((emitArms_consts root cur arms s hc hw.1 (he.imp id (·.1))).trans
-      (emit_consts root cur e _ c1 hw.2 (he.imp id (·.2))) p2.consts d2).trans (finishChain_consts _)
+    exact ((emitArms_consts root cur arms s hc hw.1).trans
+      (emit_consts root cur e _ c1 hw.2) p2.consts d2).trans (finishChain_consts _)
       (fun k _ => by cases (emitArms root cur arms s).2 <;> rfl) finishChain_dep.1.app
 
 theorem emitList_consts (root cur : Nat) : ∀ (items : List (Expr F)) (s : LState F), cur < s.jumps.size →
-    wfEList items = true → (root = cur ∨ enFreeList items = true) → ConstsOK cur s (emitList root cur items s)
-  | [], s, _, _, _ => by simp only [emitList]; exact .same rfl
-  | x :: xs, s, hc, hw, hr => by
+    wfEList items = true → ConstsOK cur s (emitList root cur items s)
+  | [], s, _, _ => by simp only [emitList]; exact .same rfl
+  | x :: xs, s, hc, hw => by
     simp only [wfEList, Bool.and_eq_true] at hw
-    have he : root = cur ∨ (enFree x = true ∧ enFreeList xs = true) := hr.imp id (by simp [enFreeList])
     simp only [emitList]
     obtain ⟨p1, d1⟩ := emit_both root cur x s hc
     have c1 : cur < (emit root cur x s).jumps.size := by have := p1.jsize; omega
-    exact (emit_consts root cur x s hc hw.1 (he.imp id (·.1))).trans
-      (emitList_consts root cur xs _ c1 hw.2 (he.imp id (·.2))) (emitList_pre root cur xs _ c1).1.consts
+    exact (emit_consts root cur x s hc hw.1).trans
+      (emitList_consts root cur xs _ c1 hw.2) (emitList_pre root cur xs _ c1).1.consts
       (emitList_dstep root cur xs _).app
 
 theorem emitArms_consts (root cur : Nat) : ∀ (arms : List (Bool × Expr F × Expr F)) (s : LState F), cur < s.jumps.size →
-    wfEArms arms = true → (root = cur ∨ enFreeArms arms = true) → ConstsOK cur s (emitArms root cur arms s).1
-  | [], s, _, _, _ => by simp only [emitArms]; exact .same rfl
-  | (b, c, t) :: rest, s, hc, hw, hr => by
+    wfEArms arms = true → ConstsOK cur s (emitArms root cur arms s).1
+  | [], s, _, _ => by simp only [emitArms]; exact .same rfl
+  | (b, c, t) :: rest, s, hc, hw => by
     simp only [wfEArms, Bool.and_eq_true] at hw
-    have he : root = cur ∨ (enFree c = true ∧ enFreeArms rest = true) :=
-      hr.imp id (by simp only [enFreeArms, Bool.and_eq_true]; exact fun h => ⟨h.1.1, h.2⟩)
     simp only [emitArms]
     obtain ⟨p1, d1⟩ := emit_both root cur c s hc
     have ca : cur < (((emit root cur c s).pushJump 0).push (jumpIf b) (some (emit root cur c s).jumps.size)).jumps.size := by
       have := p1.jsize; simp; omega
-    exact (((emit_consts root cur c s hc hw.1.1.1 (he.imp id (·.1))).thenPushJump _).thenPush _ _).trans
-      (emitArms_consts root cur rest _ ca hw.2 (he.imp id (·.2))) (emitArms_pre root cur rest _ ca).1.consts
+    exact (((emit_consts root cur c s hc hw.1.1).thenPushJump _).thenPush _ _).trans
+      (emitArms_consts root cur rest _ ca hw.2) (emitArms_pre root cur rest _ ca).1.consts
       (emitArms_dstep root cur rest _).app
 end
 
